@@ -80,7 +80,9 @@ struct HaWorld : World {
                          {m ? 4 : 0, HA_REATTACH}, {m ? 4 : 0, HA_SECOND}, {m ? 5 : 0, HA_RELOCATE}});
         op.a = (int)r.below((uint32_t)Uc);
         switch (op.k) {
-        case HA_PUT: { int api = (int)r.below(4); int klass = api >= 2 ? (r.chance(1, 2) ? 1 : 5) : (int)r.below(6); op.b = (int)r.below(1 << 20); op.c = gen_hvlen(r); if (klass == 1 || klass == 5) op.c = std::max(2, op.c); op.d = api | (klass << 2); break; }
+        case HA_PUT: { int api = (int)r.below(4); int klass = api >= 2 ? (r.chance(1, 2) ? 1 : 5) : (int)r.below(6); op.b = (int)r.below(1 << 20); op.c = gen_hvlen(r); if (klass == 1 || klass == 5) op.c = std::max(2, op.c); op.d = api | (klass << 2);
+            if (api == 3 && cfg.get("max") >= 20 && r.chance(1, 3)) op.c = r.pick(std::vector<int>{1023, 1024, 1025, 1026});     // formatting buffer boundary
+            break; }
         case HA_GET: op.d = (int)r.below(3); break;
         case HA_REMOVE: op.d = (int)r.below(3); if (r.chance(1, 5)) { op.d = 3; op.b = r.chance(1, 8) ? -r.range(1, 5) : (int)r.below(64); }
 #if !QSIM_STRUCT
